@@ -52,6 +52,8 @@ func (s SandboxContext) Init(init *interop.Init, timeoutMs int64) interop.InitCo
 
 	if len(s.handler) > 0 {
 		init.EnvironmentVariables.SetHandler(s.handler)
+		// the function metadata (reported to extensions when they register) names the same handler the runtime is started with
+		init.Handler = s.handler
 	}
 
 	init.EnvironmentVariables.StoreRuntimeAPIEnvironmentVariable(s.runtimeAPIAddress)
